@@ -28,6 +28,10 @@ def jobs(tier, seed):
     js += batches("conduct", scale(tier, 160, 3000), scale(tier, 20, 100), gen="dag", gseed=seed + 2, scheds=2, lazy=[0, 60],
                   p_fail=0.5, P=dict(PR, p_join=0.9, p_intjoin=0.9, p_intjoin_less=0.9, p_delay=0.6, p_retry=0.9, nmax=5,
                                      p_items=0.0), name="retry-at-shared-staged-entry")
+    # branches that arrive at an integer join while it WAITS for its retry (its staged entry exists, so this is outside
+    # the zone of finding F1): the re-offer must still carry the retry delay
+    js += batches("conduct", 48, 12, gen="rwait", gseed=seed + 3, scheds=scale(tier, 6, 24), lazy=[60, 90, 30, 80, 95, 50], p_fail=0.0,
+                  name="arrival-while-waiting-for-retry")
     return js
 
 
